@@ -102,7 +102,9 @@ Definition init_of (o : obs) : st :=
   (* DictList order: by observed position *)
   let sorted (l : list com) :=
     flat_map (fun k => map c_n (filter (fun x => c_pos x =? Z.of_nat k) l)) (seq 0 (length l)) in
+  let idt (l : list com) := map (fun x => (c_n x, c_id x)) l in
   init (sorted (coms o CR)) (sorted (coms o CM)) (sorted (coms o CG))
+       (idt (coms o CR)) (idt (coms o CM)) (idt (coms o CG)) (idt (coms o CP))
        (map (fun x => (c_n (r_c x), r_sto x)) (o_rx o))
        (map (fun x => (c_n (m_c x), m_back x)) (o_mt o))
        (map (fun x => (c_n (r_c x), r_genes x)) (o_rx o))
